@@ -11,7 +11,7 @@ import (
 )
 
 func VfC19SetClock(now func() time.Time) { nowFn = now }
-func VfC19SetRand(r io.Reader)          { randReader = r }
+func VfC19SetRand(r io.Reader)           { randReader = r }
 
 func VfC19ClientState(c *PeerIDAuthHandshakeClient) string {
 	switch c.state {
